@@ -170,7 +170,7 @@ Proof.
   intros HG. pose proof (phase_step_core croute s g e HG) as HC. unfold run_iter.
   destruct (phase_step croute s e) as [s1 acts1].
   pose proof HC as (_ & _ & _ & _ & _ & _ & _ & _ & _ & G1 & G2).
-  destruct (refill (c_tokens s) (c_now s1 - c_now s) <? ns_s); [|destruct c].
+  destruct (refill (c_tokens s) (c_now s1 - c_now s) <? ns_s); destruct c.
   all: match goal with |- step_ok _ _ {| sr_cancel := ?cc; sr_acts := ?acts; sr_post := ?s2; sr_status := ?st |} /\ _ =>
          match acts with
          | _ ++ ?extra => destruct (lift croute g s e cc s1 acts1 s2 extra st acts HC) as [Hok Hgn]
@@ -183,6 +183,7 @@ Proof.
   all: try (symmetry; apply app_nil_r).
   all: try (intros H; contradiction).
   all: split; [exact Hok| try exact I].
+  - rewrite Hgn. cbn [c_now]. eapply GInv_view; [|exact G2]. apply resume_view. repeat split; reflexivity.
   - rewrite Hgn. cbn [c_now]. eapply GInv_view; [|exact G2]. apply resume_view. repeat split; reflexivity.
   - rewrite Hgn. eapply GInv_view; [|exact G1]. repeat split; reflexivity.
 Qed.
